@@ -43,6 +43,18 @@ CLAIMED = {
    technique="TLA+ specs WheelName / PlatformTags(NamesRoundTrip) as structural generator + reference, model-checked by TLC; every generated name rendered and compared with packaging.utils.parse_wheel_filename / Platform.parse",
    text="WheelName.tla models file names as token sequences (words, DASH, DOT) and checks that 'last three of 5 or 6 dash-separated fields, split on dots' recovers the three tag sets and that malformed names are rejected; every modelled name is rendered with concrete tags and checked on parse_wheel_tags / wheel_compatibility against packaging; Platform.parse(str(p)) == p for the whole platform grid, multi-digit versions, architectures with underscores, aliases and choices().",
    note="Character-level parsing (regular expressions) is only exercised, not modelled: level exploration."),
+ "C04": dict(engine="pep440", category="model_checking", design_ref="5/C04",
+   technique="TLC model checking of Pep440/Clauses (translation of every clause vs PEP 440 clause semantics on structured versions) + three-way replay (specification, packaging, dep-logic `in`/contains) of every clause in 13 spellings + membership replay of every IntervalAlgebra Pairs transition and of simulated Session behaviours + TLC trace validation of sessions with leaf tables from packaging",
+   text="Pep440.tla has versions as structures with the PEP 440 order and clause semantics (meaning) and the code's clause->range translation (algorithm); TLC checks ClauseExact for every operator x bound shape (epoch, pre, post, dev, 1-2 release segments; thorough: 3 segments) against all final candidates.  Each clause is rendered in up to 13 spellings (c/pre/preview, -1/.rev1/.r1, attached/underscore separators, upper case, leading v, zero padding) and evaluated by packaging and by dep-logic, also after passing the value through &, | and ~~ so that the answer comes from the bounds and not from the remembered source text.  The whole algebra is covered by replaying every Pairs transition of IntervalAlgebra (plus a second step on the real result) and simulated Session behaviours with `in` asked at every probe version, and by sessions whose candidate tables are validated by TLC as Boolean combinations of packaging's leaf tables.",
+   note="Final-release candidates only (as the property states). packaging is the reference; a disagreement between the specification and packaging is a specification error (exit 2)."),
+ "C06": dict(engine="pep440", category="model_checking", design_ref="5/C06",
+   technique="TLC model checking of Pep440/Render (transcribed _simplified_form heuristics of RangeSpecifier/UnionSpecifier: every range and every hole over the structured version universe parses back to itself) + replay of every vector through str()/parse + TLC trace validation of reparse events in sessions",
+   text="The rendering heuristics (==, ~=, !=V, !=X.*, plain two-clause form) are transcribed on structured versions; TLC checks RenderRoundTrips for every ordered pair of bounds of the universe (192 versions: epochs, pre/post/dev, 1-2 release segments; thorough: 3 segments) x inclusivity x {range, hole}; every vector is built on the real classes, rendered and re-parsed (== in both directions).  Values that only arise from operator chains (with or without a remembered source text) are covered by reparse events in recorded sessions validated by TLC.",
+   note="One recorded finding (~= with a post-release upper bound; pinned by the repository's own test) is modelled as the code behaves and excluded by name from the invariant."),
+ "C17": dict(engine="pep440", category="exploration", design_ref="5/C17",
+   technique="Pep440.tla as structural generator (TLC-enumerated clauses) rendered in 13 spellings, random comma/||-joined sets and 14 named near-miss mutations; reference verdict = packaging.SpecifierSet",
+   text="Every clause of the TLC-enumerated Pep440 universe in every applicable spelling, thousands of random sets joined by ',' and '||', `<empty>`, and mutated near-miss strings are given to parse_version_specifier / from_specifierset: accepted by packaging => a specifier must be returned; rejected by packaging => InvalidSpecifier and nothing else.",
+   note="Character-level grammar is exercised, not modelled (level exploration). `+local` and `===` strings are skipped as the statement says."),
 }
 
 def cmd(pid, tier): return f"./check {pid} --tier {tier}"
@@ -61,6 +73,7 @@ engines = [
   "kind_free_text": "TLC model checking + spec->code transition replay + code->spec trace validation"},
  {"name": "platform", "path": "harness/check_platform.py + specs/PlatformOps.tla, PlatformTags.tla", "serves_properties": ["C09"], "kind_free_text": "TLC model checking of the full grid + replay + packaging cross-check"},
  {"name": "wheel", "path": "harness/check_wheel.py + specs/WheelOps.tla, WheelCompat.tla, EnvCompare.tla, WheelName.tla", "serves_properties": ["C08", "C16", "C18"], "kind_free_text": "TLC model checking + exhaustive state replay"},
+ {"name": "pep440", "path": "harness/check_pep440.py + specs/Pep440.tla (+ IntervalAlgebra, SpecSessionTrace)", "serves_properties": ["C04", "C06", "C17"], "kind_free_text": "TLC model checking + replay in many spellings + trace validation"},
  {"name": "generic", "path": "harness/check_generic.py + specs/GenericSpec.tla", "serves_properties": ["C19"], "kind_free_text": "TLC model checking + exhaustive transition replay"},
 ]
 m = {"version": 1, "setup_cmd": "./setup.sh",
